@@ -215,8 +215,12 @@ partial def loopFlush (h : IO.FS.Stream) (o : IO.FS.Stream) (mode : Nat) (st : S
 /-- The model that mirrors the code AS IT IS in the tree: seven of the nine deviations found were repaired in the code
 (so the model takes the standard's behaviour for them), two are pinned by the test-suite of the code and stay
 (DOMTraversalTest: the filter is consulted for nodes hidden by whatToShow; RangeTest: the offsets after insertNode's
-splitText), so the code-shaped model takes the behaviour of the code for them.  Areas `views`, `viewsfull`, `viewsgen`. -/
-def cfgCode : Cfg := { whatToShowFirst := false, splitKeepsAfter := false }
+splitText), so the code-shaped model takes the behaviour of the code for them; a third one found later (splitText of a
+parentless node moves boundary points into the unlinked new node) and a fourth (insertNode splits the text before
+insertBefore refuses the node) are mirrored as long as the code has them.  Areas `views`,
+`viewsfull`, `viewsgen`. -/
+def cfgCode : Cfg :=
+  { whatToShowFirst := false, splitKeepsAfter := false, splitDetachedStays := true, insertNodeChecksFirst := true }
 
 /-- The rule of the specifications everywhere (`{}`): areas `viewsspec`, `viewsspecfull`.  A history on which the
 implementation differs from this model is handed to the specification judge. -/
@@ -226,6 +230,7 @@ def cfgSpec : Cfg := {}
 def cfgAsIs : Cfg :=
   { iterNullGuard := false, insertedTextAdvance := false, whatToShowFirst := false, prevNodeDeepest := false,
     selectNodeParent := false, toStringDataOnly := false, splitKeepsAfter := false, renameInvalidates := false,
-    contentDeletesData := false }
+    contentDeletesData := false, splitDetachedStays := false,
+    insertNodeChecksFirst := false }
 
 end XV.Driver.Views
